@@ -29,7 +29,8 @@ Cases ==
     (IF Full
      THEN {Case(g, tt, r, Roles, IF tt = <<0, 0>> THEN "none" ELSE IF tt = <<3, -2>> THEN "two" ELSE "one") :
                 g \in AllT, tt \in Trans, r \in Rot}
-     ELSE {Case(g, <<3, -2>>, r, Roles, IF Len(g) = 1 THEN "two" ELSE "none") : g \in AllT, r \in Rot}
+     ELSE {c \in {Case(g, <<3, -2>>, r, Roles, IF Len(g) = 1 THEN "two" ELSE "none") : g \in AllT, r \in Rot} :
+                Len(c.tgt) = 1 \/ c.rot[4] = 0 \/ c.rot \in RotSample}      \* full turns: roots and the sampled tokens
           \cup {Case(g, <<-50, 70>>, r, Roles, u) : g \in AllT, r \in RotSample, u \in {"two", "one"}}
           \cup {Case(g, <<0, 0>>, r, Roles, "none") : g \in AllT, r \in RotSample})
     \cup {Case(<<SC>>, <<3, -2>>, r, m, "none") : r \in MixRot, m \in (SUBSET Roles) \ {Roles}}
